@@ -33,7 +33,8 @@ def gen_ops(rng, n):
         elif t in ("handle_ok", "handle_in_ok", "finish_with"):
             ops.append({"t": t, "v": rng.choice([0, 1, 7, 42, 2 ** 32, 2 ** 63])})
         elif t == "extend":
-            ops.append({"t": t, "bs": [total_bexpr(rng, rng.choice([0, 0, 1, 2])) for _ in range(rng.choice([0, 1, 2, 3, 5]))]})
+            ops.append({"t": t, "bs": [total_bexpr(rng, rng.choice([0, 0, 1, 2])) for _ in range(rng.choice([0, 1, 2, 3, 5]))],
+                        "via": rng.choice(["vec", "vec", "filter", "flat_map", "results", "error_iter", "chain"])})
         else:
             ops.append({"t": t})
     return ops
